@@ -46,7 +46,8 @@ def _temporary_renames(**kwargs: Var):
     pre: Dict[Var, Optional[str]] = {}
     try:
         for name, arg in kwargs.items():
-            pre[arg] = arg._name
+            # Only the first occurrence holds the original name (a Var may be passed under several keys)
+            pre.setdefault(arg, arg._name)
             arg._rename(name)
         yield
     finally:
